@@ -18,7 +18,7 @@ C10-a Seek arms: under whence==SeekStart the new cursor is the offset argument; 
 C10-b a negative target returns an error and the store to the cursor is dominated by the non-negative edge.
 C10-c closed guard: Close stores a sentinel (a field set to nil/true, or the whole struct zeroed); Read and Seek test that sentinel before touching any other field of the handle and return a non-nil error on the closed edge.
 C10-d clamp dependence: every addend of the count Read returns, and the length of every ReadAt/copy that places bytes into the caller's buffer, depends (by data flow or through the comparison that selects it) on both the file size and the cursor, i.e. on the bytes that remain; an addend that depends only on len(b) or the cluster size has the same value with 1 byte left as with 1 MiB left.
-C10-e EOF: io.EOF is returned under a comparison between cursor and size, and the cursor advances by exactly the addends of the returned count.
+C10-e EOF: io.EOF is returned under a comparison between cursor and size, and the cursor advances by exactly the addends of the returned count. The end-of-file comparison dominates every error return that is decided from the cursor (a Read at or beyond the end answers io.EOF, not a position error).
 C10-f in the extent loops of ext4 File.Read/Write the device offset of each transfer depends on a value the transfer's own count updates (the advancing cursor), not on a position taken once before the loop.
 Decides these clauses, not which bytes are returned.`)
 }
